@@ -288,7 +288,8 @@ Print Assumptions C03_flush_partial_sends.
    ForceCloseDelay, DelayFire above) the three are one step.  Called from another thread the loop
    thread runs between them; the x-machine of Conn_Model ([xstep], spelled out by C03_xstep_def:
    [Base o] = an op of the machine above, [XCheck t r] = the load and comparison, [XSet t] = the
-   store, [XEnq t] = queueInLoop / runInLoop / runAfter) executes them one by one.
+   store, [XEnq t] = queueInLoop / runInLoop / runAfter, [XRunTimer] = the loop runs the addTimerInLoop
+   functor a foreign forceCloseWithDelay() queued) executes them one by one.
 
    REFUTED (finding F-19, key "foreign-close-request-races-close").  "forceClose() brings the
    connection DOWN exactly once" is false when the loop thread closes the connection between a
@@ -314,7 +315,7 @@ Proof. exact race_witness. Qed.
 Print Assumptions C03_foreign_close_race_witness.
 
 Theorem C03_race_ops_def : forall r,
-  race_ops r = [Base Establish; XCheck 1 r; Base EvReadEOF; XSet 1; XEnq 1; Base (RunOne AcceptAll); Base (RunOne AcceptAll)].
+  race_ops r = [Base Establish; XCheck 1 r; Base EvReadEOF; XSet 1; XEnq 1; Base (RunOne AcceptAll)].
 Proof. exact race_ops_unfold. Qed.
 Print Assumptions C03_race_ops_def.
 
@@ -353,6 +354,17 @@ Proof.
 Qed.
 Print Assumptions C03_force_close_once_foreign_partial.
 
+(* and C03_fin_all_on_wire over the x-machine: in a race-free history a connection that is up and
+   half-closed has an empty backlog, interest off, and every block any sendInLoop of the history
+   took on the wire, before the FIN ([xtrace] = the Base steps, Properties_C01.C01_xtrace_def) *)
+Theorem C03_fin_all_on_wire_race_free : forall mark wc hw ops x e,
+  race_free (xinit mark wc hw) ops -> xrun (xinit mark wc hw) ops = Ok (x, e) ->
+  fin (xbase x) = true -> st (xbase x) = Connected \/ st (xbase x) = Disconnecting ->
+  outb (xbase x) = [] /\ writing (xbase x) = false /\ st (xbase x) = Disconnecting /\
+  wire (xbase x) = flat_map step_block (xtrace (xinit mark wc hw) ops).
+Proof. exact xfin_all_on_wire. Qed.
+Print Assumptions C03_fin_all_on_wire_race_free.
+
 Theorem C03_race_free_def : forall x ops,
   race_free x ops =
   match ops with
@@ -387,8 +399,10 @@ Theorem C03_xstep_def : forall x o,
   xstep x o =
   match o with
   | Base b =>
+      if (match b with RunOne _ => timer_due (xtimers x) | _ => false end) then Rejected
+      else
       match step (xbase x) b with
-      | Ok (c', e) => Ok (mkX (rereg (xbase x) c') (xreqs x), e)
+      | Ok (c', e) => Ok (mkX (rereg (xbase x) c') (xreqs x) (xtimers_after (xbase x) b (xtimers x)), e)
       | Rejected => Rejected
       | Fault => Fault
       end
@@ -396,43 +410,68 @@ Theorem C03_xstep_def : forall x o,
       if cstate_eqb (st (xbase x)) Connecting then Rejected
       else match find_req t (xreqs x) with
            | Some _ => Rejected
-           | None => Ok (mkX (xbase x) (mkReq t r (creq_test r (st (xbase x))) false :: xreqs x), [])
+           | None => Ok (mkX (xbase x) (mkReq t r (creq_test r (st (xbase x))) false :: xreqs x) (xtimers x), [])
            end
   | XSet t =>
       match find_req t (xreqs x) with
       | Some q =>
           if rq_stored q then Rejected
           else Ok (mkX (if rq_passed q then set_st (xbase x) Disconnecting else xbase x)
-                       (mkReq t (rq_kind q) (rq_passed q) true :: drop_req t (xreqs x)), [])
+                       (mkReq t (rq_kind q) (rq_passed q) true :: drop_req t (xreqs x)) (xtimers x), [])
       | None => Rejected
       end
   | XEnq t =>
       match find_req t (xreqs x) with
       | Some q =>
           if rq_stored q
-          then Ok (mkX (if rq_passed q then creq_enqueue (rq_kind q) (xbase x) else xbase x)
-                       (drop_req t (xreqs x)), [])
+          then Ok (mkX (if rq_passed q && negb (is_delay (rq_kind q)) then creq_enqueue (rq_kind q) (xbase x) else xbase x)
+                       (drop_req t (xreqs x))
+                       (if rq_passed q && is_delay (rq_kind q) then xtimers x ++ [length (pending (xbase x))] else xtimers x), [])
           else Rejected
       | None => Rejected
+      end
+  | XRunTimer =>
+      match xtimers x with
+      | 0 :: r => Ok (mkX (creq_enqueue RForceCloseDelay (xbase x)) (xreqs x) r, [])
+      | _ => Rejected
       end
   end.
 Proof. exact xstep_unfold. Qed.
 Print Assumptions C03_xstep_def.
 
-(* adjacent load, store and hand-off ARE the atomic ops of the machine above; and on a state
+(* [xtimers]: a foreign forceCloseWithDelay() hands TimerQueue::addTimerInLoop to the loop's functor
+   queue; the x-machine keeps, for each such functor, how many functors of [pending] are ahead of
+   it; [XRunTimer] = the loop runs it (the timer is armed: delayed + 1); RunOne is refused while an
+   addTimerInLoop is the oldest functor of the real queue *)
+Theorem C03_xtimers_def : forall c o l,
+  xtimers_after c o l = (match o with
+                         | RunOne _ => match pending c with [] => l | _ :: _ => map pred l end
+                         | _ => l
+                         end) /\
+  timer_due l = (match l with 0 :: _ => true | _ => false end).
+Proof. exact xtimers_unfold. Qed.
+Print Assumptions C03_xtimers_def.
+
+(* adjacent load, store and hand-off of a foreign shutdown() / forceClose() ARE the atomic ops of the
+   machine above; a foreign forceCloseWithDelay() additionally needs the loop to run the queued
+   addTimerInLoop (at once, when nothing else is queued), unless its test failed; and on a state
    satisfying the invariant a Base op of the x-machine is the op of the base machine ([rereg],
    which keeps the registration flag faithful in racy states, is then the identity) *)
-Theorem C03_adjacent_is_atomic : forall c reqs t, st c <> Connecting -> find_req t reqs = None ->
-  xrun (mkX c reqs) [XCheck t RShutdown; XSet t; XEnq t] = xstep (mkX c reqs) (Base XShutdown) /\
-  xrun (mkX c reqs) [XCheck t RForceClose; XSet t; XEnq t] = xstep (mkX c reqs) (Base ForceClose) /\
-  xrun (mkX c reqs) [XCheck t RForceCloseDelay; XSet t; XEnq t] = xstep (mkX c reqs) (Base ForceCloseDelay).
+Theorem C03_adjacent_is_atomic : forall c reqs tm t, st c <> Connecting -> find_req t reqs = None ->
+  xrun (mkX c reqs tm) [XCheck t RShutdown; XSet t; XEnq t] = xstep (mkX c reqs tm) (Base XShutdown) /\
+  xrun (mkX c reqs tm) [XCheck t RForceClose; XSet t; XEnq t] = xstep (mkX c reqs tm) (Base ForceClose) /\
+  (pending c = [] -> tm = [] ->
+   xrun (mkX c reqs tm) [XCheck t RForceCloseDelay; XSet t; XEnq t; XRunTimer] = xstep (mkX c reqs tm) (Base ForceCloseDelay) \/
+   (creq_test RForceCloseDelay (st c) = false /\
+    xrun (mkX c reqs tm) [XCheck t RForceCloseDelay; XSet t; XEnq t] = xstep (mkX c reqs tm) (Base ForceCloseDelay))).
 Proof. exact adjacent_is_atomic. Qed.
 Print Assumptions C03_adjacent_is_atomic.
 
-Theorem C03_xstep_base : forall c reqs o, Inv c ->
-  xstep (mkX c reqs) (Base o) =
+Theorem C03_xstep_base : forall c reqs tm o, Inv c ->
+  xstep (mkX c reqs tm) (Base o) =
+  if (match o with RunOne _ => timer_due tm | _ => false end) then Rejected else
   match step c o with
-  | Ok (c', e) => Ok (mkX c' reqs, e)
+  | Ok (c', e) => Ok (mkX c' reqs (xtimers_after c o tm), e)
   | Rejected => Rejected
   | Fault => Fault
   end.
